@@ -359,6 +359,12 @@ func (r *resolver) applyDeviation(y *Module, d *Deviation) error {
 		}
 	}
 	if d.Replace != nil {
+		if d.Replace.dtype != nil {
+			if hasType == nil {
+				return fmt.Errorf("type cannot be replaced on %s", d.Ident())
+			}
+			hasType.setType(d.Replace.dtype)
+		}
 		if d.Replace.configPtr != nil {
 			if !hasDets.IsConfigSet() {
 				return fmt.Errorf("config not set on %s", d.Ident())
